@@ -63,6 +63,7 @@ type xl struct {
 	constOrd *[]string
 	retType  string // Coq type of the function's results
 	nres     int
+	resTypes []types.Type
 	tmp      int
 }
 
@@ -413,13 +414,30 @@ func (x *xl) binary(e *ast.BinaryExpr, g *guards) string {
 		}
 		return "(orb " + a + " " + b + ")"
 	}
+	switch e.Op {
+	case token.EQL, token.NEQ: // comparison with nil: nil is the zero value of the other operand's type
+		if x.info.Types[e.Y].IsNil() && !x.info.Types[e.X].IsNil() {
+			return x.compare(e, x.typeOf(e.X), x.expr(e.X, g), x.zero(e, x.typeOf(e.X)))
+		}
+		if x.info.Types[e.X].IsNil() && !x.info.Types[e.Y].IsNil() {
+			return x.compare(e, x.typeOf(e.Y), x.zero(e, x.typeOf(e.Y)), x.expr(e.Y, g))
+		}
+	}
 	a, b := x.expr(e.X, g), x.expr(e.Y, g)
 	switch e.Op {
 	case token.EQL, token.NEQ, token.LSS, token.LEQ, token.GTR, token.GEQ:
 		t := x.typeOf(e.X)
-		if tv := x.info.Types[e.X]; tv.Value != nil || tv.IsNil() { // untyped constant or nil on the left: the other side decides
+		if tv := x.info.Types[e.X]; tv.Value != nil { // untyped constant on the left: the other side decides
 			t = x.typeOf(e.Y)
 		}
+		return x.compare(e, t, a, b)
+	}
+	return x.arith(e, a, b, g)
+}
+
+// compare: a op b for operands of type t
+func (x *xl) compare(e *ast.BinaryExpr, t types.Type, a, b string) string {
+	{
 		var r string
 		_, _, isInt := intType(t)
 		switch {
@@ -445,6 +463,8 @@ func (x *xl) binary(e *ast.BinaryExpr, g *guards) string {
 				x.fail(e, "errors can only be compared with nil")
 			}
 			r = "(Bool.eqb " + a + " " + b + ")"
+		case !isBytes(t) && (e.Op == token.EQL || e.Op == token.NEQ) && (x.info.Types[e.Y].IsNil() || x.info.Types[e.X].IsNil()):
+			x.fail(e, "comparison of a %s with nil is outside the subset", t)
 		default:
 			x.fail(e, "comparison %s of values of type %s is outside the subset", e.Op, t)
 		}
@@ -453,6 +473,10 @@ func (x *xl) binary(e *ast.BinaryExpr, g *guards) string {
 		}
 		return r
 	}
+}
+
+// arith: a op b for integer operands, wrapped to the width of the result type where the operation can leave it
+func (x *xl) arith(e *ast.BinaryExpr, a, b string, g *guards) string {
 	t := x.typeOf(e)
 	if _, _, ok := intType(t); !ok {
 		x.fail(e, "operator %s on type %s is outside the subset", e.Op, t)
@@ -478,12 +502,14 @@ func (x *xl) binary(e *ast.BinaryExpr, g *guards) string {
 		return "(Z.lxor " + a + " " + b + ")"
 	case token.AND_NOT:
 		return "(Z.ldiff " + a + " " + b + ")"
-	case token.SHL: // a negative shift count panics
-		*g = append(*g, "(0 <=? "+b+")")
+	case token.SHL, token.SHR: // a negative shift count panics (a constant count is checked by the compiler)
+		if x.info.Types[e.Y].Value == nil {
+			*g = append(*g, "(0 <=? "+b+")")
+		}
+		if e.Op == token.SHR {
+			return "(Z.shiftr " + a + " " + b + ")"
+		}
 		return x.wrap(e, t, "(Z.shiftl "+a+" "+b+")")
-	case token.SHR:
-		*g = append(*g, "(0 <=? "+b+")")
-		return "(Z.shiftr " + a + " " + b + ")"
 	}
 	x.fail(e, "operator %s is outside the subset", e.Op)
 	return ""
@@ -726,8 +752,12 @@ func (x *xl) stmt(s ast.Stmt, rest func() string, d int) string {
 			x.fail(s, "return with %d values in a function with %d results (named results are outside the subset)", len(s.Results), x.nres)
 		}
 		var vs []string
-		for _, r := range s.Results {
-			vs = append(vs, x.expr(r, &g))
+		for i, r := range s.Results {
+			if x.info.Types[r].IsNil() && i < len(x.resTypes) { // nil is the zero value of the result's type
+				vs = append(vs, x.zero(r, x.resTypes[i]))
+			} else {
+				vs = append(vs, x.expr(r, &g))
+			}
 		}
 		return guarded(g, x.ret(vs))
 	case *ast.DeclStmt:
